@@ -64,6 +64,18 @@ pub fn run(ctx: &Ctx, rep: &mut Reporter) {
         let ast = if rng.chance(1, 4) { ast.with_noise(&mut rng, 10) } else { ast };
         let model = Model::new(&ast);
         let text = ast.print(*rng.pick(&Term::ALL), rng.chance(3, 4), &mut rng);
+        // History: every other file is written right after a write on the same thread that
+        // failed (or was short) somewhere in the middle — a file's layout must not depend on
+        // what the thread wrote before.
+        if case_idx % 2 == 1 {
+            use pgvcore::sinks::{FaultSink, Schedule};
+            let at = *rng.pick(&[1usize, 2, 3, 4, 6, 9, 14]);
+            let mut sink = FaultSink::new(if rng.chance(3, 4) { Schedule::FailAt(at) } else { Schedule::ZeroAt(at) });
+            let r = guarded(|| cur::write_cache_to(&text, &mut sink));
+            if let Ok(Err(_)) = r {
+                rep.count("files_written_after_a_failed_write_on_the_same_thread", 1);
+            }
+        }
         let r = guarded(|| check(&text, Some(&model), rep, case_idx, "ast"));
         if let Err(p) = r {
             panic_violation(rep, case_idx, "panic", &p, mapping_detail(&text, ""));
